@@ -20,6 +20,14 @@ for line in open(os.path.join(V, 'properties.jsonl')):
 ids = ids or sorted(props)
 
 FOCUS = {
+    '7': ('the checker that will judge your change already varies units, include flags (False and 0), zero / equal / tiny / huge / '
+          'negative values, narrow integer types, memory layouts, construction by re-assignment, WCS header encodings and axis orders, '
+          'region frames, caller-held arguments, call histories and text with unusual characters.  So think about what is LEFT: '
+          'public methods and keyword arguments of the anchored classes that the earlier ideas never touched, the second of two code '
+          'paths that must agree (a convenience wrapper vs the method it wraps, a method vs the operator that calls it, the Regions '
+          'list method vs the single-region method), behaviour at the LIMITS of the quantified domain stated in the property (largest '
+          'precision, longest list, deepest nesting, smallest and largest scale), and two-step sequences in which the first step is '
+          'itself legal and correct'),
     '6': ('many obvious sites are used up (see the list below), so read the code paths of the anchors line by line and pick slips '
           'that survive a checker which already varies units, include flags (False and 0), zero / equal / tiny / huge values, '
           'construction by re-assignment, header encodings, caller-held arguments and call histories: e.g. a wrong branch taken only '
